@@ -152,12 +152,21 @@ func decodeStruct(p Paragraph, into reflect.Value) error {
 			continue
 		}
 
+		if fieldType.PkgPath != "" && !fieldType.Anonymous {
+			/* unexported members are none of our business (and can't
+			 * be set or looked into anyway) */
+			continue
+		}
+
 		if field.Type().Kind() == reflect.Struct {
 			/* Walk into plain nested structs only. The Paragraph member
 			 * is filled in below, and a type that unmarshals itself owns
 			 * its members: a field that happens to be called `Values`
 			 * or `Epoch` is not meant for them. */
-			_, selfUnmarshals := field.Addr().Interface().(Unmarshallable)
+			selfUnmarshals := false
+			if field.Addr().CanInterface() {
+				_, selfUnmarshals = field.Addr().Interface().(Unmarshallable)
+			}
 			if fieldType.Type != paragraphType && !selfUnmarshals {
 				err := decodeStruct(p, field)
 				if err != nil {
